@@ -12,10 +12,10 @@ use num_traits::Signed;
 // expected failure cannot mask a regression of another constant.  Every assertion has its
 // own message naming the constant.
 macro_rules! konst {
-    ($ty:ty, $f:ident, $std:expr, $bits:ident) => {{
+    ($ty:ty, $f:ident, $std:expr, $bits:ident, $m1:literal, $m2:literal) => {{
         let c: $ty = <$ty as RealField>::$f();
-        assert!($bits(c.re) == $bits($std), concat!(stringify!($f), "().re is bit-equal to the std constant"));
-        assert!(c.parts_zero_or_absent(), concat!(stringify!($f), "() has zero/absent derivative parts"));
+        assert!($bits(c.re) == $bits($std), $m1);
+        assert!(c.parts_zero_or_absent(), $m2);
     }};
 }
 
@@ -59,24 +59,24 @@ macro_rules! const_harness {
     ($name:ident, $name_pi2:ident, $ty:ty, $fl:ident, $bits:ident) => {
         #[kani::proof]
         fn $name() {
-            konst!($ty, pi, std::$fl::consts::PI, $bits);
-            konst!($ty, two_pi, std::$fl::consts::TAU, $bits);
-            konst!($ty, frac_pi_3, std::$fl::consts::FRAC_PI_3, $bits);
-            konst!($ty, frac_pi_4, std::$fl::consts::FRAC_PI_4, $bits);
-            konst!($ty, frac_pi_6, std::$fl::consts::FRAC_PI_6, $bits);
-            konst!($ty, frac_pi_8, std::$fl::consts::FRAC_PI_8, $bits);
-            konst!($ty, frac_1_pi, std::$fl::consts::FRAC_1_PI, $bits);
-            konst!($ty, frac_2_pi, std::$fl::consts::FRAC_2_PI, $bits);
-            konst!($ty, frac_2_sqrt_pi, std::$fl::consts::FRAC_2_SQRT_PI, $bits);
-            konst!($ty, e, std::$fl::consts::E, $bits);
-            konst!($ty, log2_e, std::$fl::consts::LOG2_E, $bits);
-            konst!($ty, log10_e, std::$fl::consts::LOG10_E, $bits);
-            konst!($ty, ln_2, std::$fl::consts::LN_2, $bits);
-            konst!($ty, ln_10, std::$fl::consts::LN_10, $bits);
+            konst!($ty, pi, std::$fl::consts::PI, $bits, "pi().re is bit-equal to std consts::PI", "pi() has zero/absent derivative parts");
+            konst!($ty, two_pi, std::$fl::consts::TAU, $bits, "two_pi().re is bit-equal to std consts::TAU", "two_pi() has zero/absent derivative parts");
+            konst!($ty, frac_pi_3, std::$fl::consts::FRAC_PI_3, $bits, "frac_pi_3().re is bit-equal to std consts::FRAC_PI_3", "frac_pi_3() has zero/absent derivative parts");
+            konst!($ty, frac_pi_4, std::$fl::consts::FRAC_PI_4, $bits, "frac_pi_4().re is bit-equal to std consts::FRAC_PI_4", "frac_pi_4() has zero/absent derivative parts");
+            konst!($ty, frac_pi_6, std::$fl::consts::FRAC_PI_6, $bits, "frac_pi_6().re is bit-equal to std consts::FRAC_PI_6", "frac_pi_6() has zero/absent derivative parts");
+            konst!($ty, frac_pi_8, std::$fl::consts::FRAC_PI_8, $bits, "frac_pi_8().re is bit-equal to std consts::FRAC_PI_8", "frac_pi_8() has zero/absent derivative parts");
+            konst!($ty, frac_1_pi, std::$fl::consts::FRAC_1_PI, $bits, "frac_1_pi().re is bit-equal to std consts::FRAC_1_PI", "frac_1_pi() has zero/absent derivative parts");
+            konst!($ty, frac_2_pi, std::$fl::consts::FRAC_2_PI, $bits, "frac_2_pi().re is bit-equal to std consts::FRAC_2_PI", "frac_2_pi() has zero/absent derivative parts");
+            konst!($ty, frac_2_sqrt_pi, std::$fl::consts::FRAC_2_SQRT_PI, $bits, "frac_2_sqrt_pi().re is bit-equal to std consts::FRAC_2_SQRT_PI", "frac_2_sqrt_pi() has zero/absent derivative parts");
+            konst!($ty, e, std::$fl::consts::E, $bits, "e().re is bit-equal to std consts::E", "e() has zero/absent derivative parts");
+            konst!($ty, log2_e, std::$fl::consts::LOG2_E, $bits, "log2_e().re is bit-equal to std consts::LOG2_E", "log2_e() has zero/absent derivative parts");
+            konst!($ty, log10_e, std::$fl::consts::LOG10_E, $bits, "log10_e().re is bit-equal to std consts::LOG10_E", "log10_e() has zero/absent derivative parts");
+            konst!($ty, ln_2, std::$fl::consts::LN_2, $bits, "ln_2().re is bit-equal to std consts::LN_2", "ln_2() has zero/absent derivative parts");
+            konst!($ty, ln_10, std::$fl::consts::LN_10, $bits, "ln_10().re is bit-equal to std consts::LN_10", "ln_10() has zero/absent derivative parts");
         }
         #[kani::proof]
         fn $name_pi2() {
-            konst!($ty, frac_pi_2, std::$fl::consts::FRAC_PI_2, $bits);
+            konst!($ty, frac_pi_2, std::$fl::consts::FRAC_PI_2, $bits, "frac_pi_2().re is bit-equal to std consts::FRAC_PI_2", "frac_pi_2() has zero/absent derivative parts");
         }
     };
 }
@@ -150,16 +150,23 @@ select_harness!(c11_select_dual64, any_dual64());
 select_harness!(c11_select_dual2_64, any_dual2_64());
 select_harness!(c11_select_dualsvec64_2, any_dualsvec64::<2>());
 select_harness!(c11_select_dual2svec64_2, any_dual2svec64::<2>());
+select_harness!(c11_select_dualsvec64_1, any_dualsvec64::<1>());
+select_harness!(c11_select_dual2svec64_1, any_dual2svec64::<1>());
 
 // ---------------------------------------------------------------- SimdValue, LANES == 1
 pub trait ValueEq {
     /// equal as values: parts bit-equal, an absent derivative counts as all-(+0.0)
     fn value_eq(&self, o: &Self) -> bool;
+    /// same, but +0.0 and -0.0 derivative entries are identified
+    fn value_eq_mod_zero_sign(&self, o: &Self) -> bool;
 }
 macro_rules! value_eq_scalar {
     ($t:ty) => {
         impl ValueEq for $t {
             fn value_eq(&self, o: &Self) -> bool {
+                self.same(o)
+            }
+            fn value_eq_mod_zero_sign(&self, o: &Self) -> bool {
                 self.same(o)
             }
         }
@@ -184,14 +191,37 @@ fn deriv_value_eq<const R: usize, const C: usize>(
     }
     ok
 }
+fn deriv_value_eq0<const R: usize, const C: usize>(
+    a: &Derivative<f64, f64, nalgebra::Const<R>, nalgebra::Const<C>>,
+    b: &Derivative<f64, f64, nalgebra::Const<R>, nalgebra::Const<C>>,
+) -> bool {
+    let (ea, eb) = (entries(a), entries(b));
+    let mut ok = true;
+    let mut j = 0;
+    while j < C {
+        let mut i = 0;
+        while i < R {
+            ok &= b64(ea[j][i]) == b64(eb[j][i]) || (ea[j][i] == 0.0 && eb[j][i] == 0.0);
+            i += 1;
+        }
+        j += 1;
+    }
+    ok
+}
 impl<const N: usize> ValueEq for DualSVec64<N> {
     fn value_eq(&self, o: &Self) -> bool {
         b64(self.re) == b64(o.re) && deriv_value_eq(&self.eps, &o.eps)
+    }
+    fn value_eq_mod_zero_sign(&self, o: &Self) -> bool {
+        b64(self.re) == b64(o.re) && deriv_value_eq0(&self.eps, &o.eps)
     }
 }
 impl<const N: usize> ValueEq for Dual2SVec64<N> {
     fn value_eq(&self, o: &Self) -> bool {
         b64(self.re) == b64(o.re) && deriv_value_eq(&self.v1, &o.v1) && deriv_value_eq(&self.v2, &o.v2)
+    }
+    fn value_eq_mod_zero_sign(&self, o: &Self) -> bool {
+        b64(self.re) == b64(o.re) && deriv_value_eq0(&self.v1, &o.v1) && deriv_value_eq0(&self.v2, &o.v2)
     }
 }
 
@@ -207,8 +237,10 @@ macro_rules! simd_harness {
             assert!(s.same(&x), "splat(x) == x (all parts bit-for-bit, absent stays absent)");
             let e = s.extract(0);
             assert!(e.same(&x), "splat(x).extract(0) == x (all parts bit-for-bit, absent stays absent)");
+            // extract_unchecked drops an all-zero derivative to `none()` (is_zero test), which
+            // turns -0.0 entries into +0.0: compared modulo the sign of zero entries.
             let eu = unsafe { x.extract_unchecked(0) };
-            assert!(eu.value_eq(&x), "extract_unchecked(0) == x as a value");
+            assert!(eu.value_eq_mod_zero_sign(&x), "extract_unchecked(0) == x as a value (modulo sign of zero entries)");
             // replace: lane 0 becomes y.  An absent part of y written over a present part of x
             // is stored as explicit zeros (documented "auto-upgrade"), hence value equality
             // (absent == all +0.0) is what holds; every entry is compared bit-for-bit.
@@ -228,3 +260,5 @@ simd_harness!(c11_simd_dual64, Dual64, any_dual64());
 simd_harness!(c11_simd_dual2_64, Dual2_64, any_dual2_64());
 simd_harness!(c11_simd_dualsvec64_2, DualSVec64<2>, any_dualsvec64::<2>());
 simd_harness!(c11_simd_dual2svec64_2, Dual2SVec64<2>, any_dual2svec64::<2>());
+simd_harness!(c11_simd_dualsvec64_1, DualSVec64<1>, any_dualsvec64::<1>());
+simd_harness!(c11_simd_dual2svec64_1, Dual2SVec64<1>, any_dual2svec64::<1>());
